@@ -316,4 +316,26 @@ def c07_differential(seed, n):
     return {"violates": False, "cases": cases}
 
 
-CALLS = {"c07_nested": c07_nested, "c07_grouped": c07_grouped, "c07_eval": c07_eval, "c07_expr": c07_expr, "c07_shape": c07_shape, "c07_reject": c07_reject, "c07_table": c07_table, "c07_sequence": c07_sequence, "c07_differential": c07_differential}
+
+def c07_history_compile(expr, n=0, m=0, s="", t=""):
+    from flow.record import RecordDescriptor
+    from flow.record.selector import Selector, make_selector
+
+    D = RecordDescriptor("c07/h", [("varint", "n"), ("varint", "m"), ("string", "s"), ("string", "t"), ("string[]", "sl")])
+    rec = D(n=n, m=m, s=s, t=t, sl=["a", "b"])
+    try:
+        want = bool(eval(expr, {"r": rec}))
+    except Exception:
+        return {"violates": False, "note": "a sub-expression is undefined"}
+    s_ = Selector(expr)
+    got = []
+    try:
+        got.append(bool(s_.match(rec)))
+        c_ = make_selector(s_, force_compiled=True)
+        for obj in (c_, s_, c_):
+            got.append(bool(obj.match(rec)))
+    except Exception as e:
+        got.append(f"raise {type(e).__name__}: {e}")
+    return {"violates": got != [want] * 4, "detail": f"{expr!r}: interpreted before / compiled / interpreted after / compiled again: {got}, Python {want}"}
+
+CALLS = {"c07_history_compile": c07_history_compile, "c07_nested": c07_nested, "c07_grouped": c07_grouped, "c07_eval": c07_eval, "c07_expr": c07_expr, "c07_shape": c07_shape, "c07_reject": c07_reject, "c07_table": c07_table, "c07_sequence": c07_sequence, "c07_differential": c07_differential}
